@@ -60,4 +60,5 @@ def run(check):
         check.programs += 1
         runs.append(({'case': name, 'roots': prog}, log, len(prog)))
     check.extra['table_cases'] = len(table())
+    runs += usimrun.random_runs(check)     # random programs over the whole vocabulary
     usimrun.judge(check, OBS, runs)
